@@ -81,7 +81,17 @@ func Harness_C17_same_signers_on_every_node() {
 	if err2 != nil {
 		return
 	}
+	if len(validated.SignedAddr) < len(validated.Sigs) {
+		cover("several-witnesses-one-account")
+	}
+	established := append([]common.Address{}, validated.SignedAddr...)
 	a := validated.GetSignatureAddresses()
 	b := unvalidated.GetSignatureAddresses()
+	// what contract code sees on the validating node is exactly the set the validator established
+	assert(c17SetEq(a, established), "visible-signers-are-the-validator-established-set")
 	assert(c17SetEq(a, b), "validated-and-raw-signer-sets-equal")
 }
+
+// Harness_C17_two_witnesses: the same claim for transactions with two signature sets (e.g. the same signer
+// listed twice), with its own smaller key bound (see spec.json).
+func Harness_C17_two_witnesses() { Harness_C17_same_signers_on_every_node() }
